@@ -1020,6 +1020,8 @@ impl C10 {
         let only_pass = ctx.opt("pass").map(|s| s.to_string());
         let only_preload = ctx.opt("preload").map(|s| s.to_string());
         let depth_override: Option<usize> = ctx.opt("depth").and_then(|s| s.parse().ok());
+        // development aid: `--tier thorough --opt sizes=quick` = quick-tier bounds under the thorough wall cap
+        let size_tier = if ctx.opt("sizes") == Some("quick") { vcore::Tier::Quick } else { ctx.tier };
         let mut unit = 0u64; // ownership counter over (pass, variant, preload, 2-op prefix)
         let mut since_check = 0u32;
         for pass in PASSES {
@@ -1042,7 +1044,7 @@ impl C10 {
                         Preload::P12 => 1,
                         Preload::P650 => 2,
                     };
-                    let depth = depth_override.unwrap_or(ctx.tier.pick(pass.depth[di].0, pass.depth[di].1));
+                    let depth = depth_override.unwrap_or(size_tier.pick(pass.depth[di].0, pass.depth[di].1));
                     let mut violating: HashSet<Vec<Op>> = HashSet::new();
                     let mut illegal: HashSet<Vec<Op>> = HashSet::new();
                     // the empty history (initial state = preload): one owner; it is not a prunable prefix
